@@ -2109,10 +2109,10 @@ class Point:
             x_str = "%.12G" % self.x
         except TypeError:
             return self.__repr__()
-        if "." in x_str:
+        if "." in x_str and "E" not in x_str:
             x_str = x_str.rstrip("0").rstrip(".")
         y_str = "%.12G" % self.y
-        if "." in y_str:
+        if "." in y_str and "E" not in y_str:
             y_str = y_str.rstrip("0").rstrip(".")
         return "%s,%s" % (x_str, y_str)
 
